@@ -148,6 +148,11 @@ def machine_spec(draw, profile="general", tier="quick"):
         ram = draw(st.sampled_from([100, 64, 256, 30]))
         tps = draw(st.sampled_from([10, 5, 20, 2]))
         fr = draw(st.permutations([0.05, 0.15, 0.3]))
+        if draw(st.integers(0, 2)) == 0:
+            # identical branches of one pipeline with equal allocations: suspended together, their write-outs end in the same tick
+            for i in range(1, k):
+                pipes[i] = dict(pipes[0])
+            fr = [fr[0]] * 3
         steps.append({"sus": [], "asg": [[0, i, 0, ["abs", 1], ["cap", fr[i]], None] for i in range(k)], "idle": 0})
         for _ in range(draw(st.integers(3, 14))):
             steps.append({"sus": [[0, j, "ok"] for j in range(draw(st.integers(1, k)))],
